@@ -298,6 +298,29 @@ theorem pong_cancels_pingTimeout (s : S) (p : Bytes) (h : s.pingPending = some p
   simp only [h, if_true]
   split <;> simp [armPingNext, S.timer]
 
+/-- **any data frame counts as traffic** — with `autoPingRestartOnAnyTraffic` the end of EVERY data frame, final or not
+(`endDataFrame` runs in `onFrameEnd` before the `fin` test), cancels a pending pong deadline and forgets the outstanding
+ping: a peer that is busy streaming the fragments of one long message is not dropped for the missing pong.  (Seeded change
+c17d moved this restart under `if fin:`; the tie is the `data_instead = 3` scenario of the C17 harness.) -/
+theorem data_frame_cancels_pingTimeout (s : S) (hr : s.cfg.pingRestart = true) (ht : s.tPingTimeout.isSome = true) :
+    (endDataFrame s).tPingTimeout = none ∧ (endDataFrame s).pingPending = none := by
+  unfold endDataFrame
+  dsimp only
+  split <;> rename_i hf <;>
+  · simp only [ht, hr, Bool.and_self, if_true]
+    unfold cancelAutoPingTimeout
+    dsimp only
+    split <;> simp [armPingNext, S.timer]
+
+/-- … and the non-final frame of `onFrameEnd` goes through it: the frame end of a data frame with `fin = false` -/
+theorem nonfinal_frame_cancels_pingTimeout (s : S) (h : Hdr) (ho : ¬ h.opcode > 7) (hfin : h.fin = false)
+    (hr : s.cfg.pingRestart = true) (ht : s.tPingTimeout.isSome = true) :
+    (onFrameEnd s h).1.tPingTimeout = none := by
+  have hc : (endDataFrame s).tPingTimeout = none := (data_frame_cancels_pingTimeout s hr ht).1
+  unfold onFrameEnd
+  simp only [ho, if_false, hfin]
+  simpa using hc
+
 /-- **pings keep coming** (local form): on an OPEN connection with automatic pings configured, every automatic ping
 arms either the pong deadline or — when no deadline is configured — the next ping itself (since the repair cde7fa2e;
 before it nothing was armed in that case and pinging stopped with the first unanswered ping) -/
